@@ -1,6 +1,9 @@
 package main
 
-import "net/url"
+import (
+	"net/url"
+	"strings"
+)
 
 func mustURL(s string) *url.URL {
 	u, err := url.Parse(s)
@@ -40,4 +43,50 @@ func init() {
 	checks["C15"] = func(r *Run) {
 		runHistories(r, profile{Hostile: 60, Faults: 15, Attack: 25, Logout: 6, Ticks: 10, OddRequest: true, OddConfig: true, Histories: scale(r, 60, 1500), Length: 45}, histRule)
 	}
+	checks["C09"] = func(r *Run) {
+		// all interleavings of a logout with one concurrent check (three kinds), both stores; thorough: two checks
+		n := 0
+		for _, store := range []string{"mem", "redis"} {
+			for _, k := range []string{"fresh", "refresh", "callback"} {
+				c := genCfg(r, false, n)
+				c.Logout, c.LogoutPath, c.LogoutURI, c.Store, c.Access = true, "/logout", "https://idp.example.com/logout", store, true
+				threads := []string{"logout", k}
+				if k == "callback" {
+					threads = []string{"logout", "app"} // mid-login is exercised through the sequential histories below
+				}
+				n += exploreSchedules(r, schedScenario{Name: store + "/logout+" + k, Cfg: c, Threads: threads}, scale(r, 80, 400))
+				if r.thorough() {
+					n += exploreSchedules(r, schedScenario{Name: store + "/logout+" + k + "+refresh", Cfg: c, Threads: []string{"logout", threads[1], "refresh"}}, 1500)
+				}
+			}
+		}
+		r.Extra["interleavings_executed"] = n
+		if r.unknownViolations() == 0 {
+			runHistories(r, profile{Hostile: 10, Faults: 12, Attack: 10, Logout: 30, Ticks: 15, Histories: scale(r, 40, 1000), Length: 45},
+				"(a) every interleaving, at store-call / token-endpoint-call / key-lookup granularity, of a logout with one (thorough: two) concurrent checks on the same session (fresh, expired-refreshable, application request), on real goroutines under the controlled scheduler, memory and Redis store, followed by a sequential probe with the old cookie; (b) "+histRule)
+			return
+		}
+		r.Finish("interleavings of a logout with concurrent checks under the controlled scheduler")
+	}
+	checks["C04"] = func(r *Run) {
+		n := 0
+		for _, store := range []string{"mem", "redis"} {
+			for _, th := range [][]string{{"callback", "replay"}, {"callback", "swap"}, {"callback", "replay", "swap"}} {
+				if len(th) == 3 && !r.thorough() {
+					continue
+				}
+				c := genCfg(r, false, n)
+				c.Store = store
+				n += exploreSchedules(r, schedScenario{Name: store + "/" + strings.Join(th, "+"), Cfg: c, Threads: th}, scale(r, 120, 2000))
+			}
+		}
+		r.Extra["interleavings_executed"] = n
+		if r.unknownViolations() > 0 {
+			r.Finish("interleavings of login callbacks under the controlled scheduler")
+			return
+		}
+		runHistories(r, profile{Hostile: 10, Faults: 5, Attack: 45, Logout: 4, Ticks: 8, OddRequest: true, Histories: scale(r, 50, 1500), Length: 50},
+			"(a) every interleaving of the callback of one login with a replay of it and/or the same state and code presented under another session's cookie, under the controlled scheduler, memory and Redis store, followed by a sequential replay; (b) "+histRule)
+	}
 }
+
